@@ -1471,6 +1471,7 @@ impl<'a, T, L: MutLayout> AxisChunks<'a, T, L> {
         chunk_size: usize,
     ) -> AxisChunks<'a, T, L> {
         assert!(chunk_size > 0, "chunk size must be > 0");
+        assert!(axis < view.ndim());
         AxisChunks {
             remainder: if view.size(axis) > 0 {
                 Some(view.view())
@@ -1545,6 +1546,7 @@ impl<'a, T, L: MutLayout> AxisChunksMut<'a, T, L> {
             "Cannot mutably iterate over broadcasting view"
         );
         assert!(chunk_size > 0, "chunk size must be > 0");
+        assert!(axis < view.ndim());
         AxisChunksMut {
             remainder: if view.size(axis) > 0 {
                 Some(view)
